@@ -1061,7 +1061,7 @@ def c11(tier):
     # the relations are theorems of the semantics: checked over all small frameworks (IsoInvariant, Product, StableCoincide, ...)
     small = mcdung(res, 4 if thorough else 3)
     # ... and, for the padding with sinks, proved for frameworks of any size (TLAPS)
-    res.extra["tlaps"] = [vlib.tlaps("proofs/SinkLemma.tla", res.wd), vlib.tlaps("proofs/ProductLemma.tla", res.wd), vlib.tlaps("proofs/ReductLemma.tla", res.wd)]
+    res.extra["tlaps"] = [vlib.tlaps("proofs/SinkLemma.tla", res.wd), vlib.tlaps("proofs/ProductLemma.tla", res.wd), vlib.tlaps("proofs/ReductLemma.tla", res.wd), vlib.tlaps("proofs/GroundedLemma.tla", res.wd)]
     s = seed()
     k = 4 if thorough else 1
     larges = afgen.large_afs(s, 150 * k, 20, 50) + afgen.large_afs(s + 1, 60 * k, 51, 120) + afgen.large_afs(s + 2, 40 * k, 121, 300)
